@@ -49,6 +49,8 @@ enum Op {
     Del(usize, usize),
     Ins(usize, Vec<u8>),
     Replace(Vec<u8>),
+    /// replace `n` octets at `pos` by the given octets
+    Splice(usize, usize, Vec<u8>),
 }
 
 impl Op {
@@ -66,12 +68,18 @@ impl Op {
                 v.extend(t);
             }
             Op::Replace(x) => v = x.clone(),
+            Op::Splice(p, n, x) => {
+                let t = v.split_off(*p + *n);
+                v.truncate(*p);
+                v.extend_from_slice(x);
+                v.extend(t);
+            }
         }
         v
     }
     fn pos(&self) -> usize {
         match self {
-            Op::Xor(p, _) | Op::Set(p, _) | Op::Del(p, _) | Op::Ins(p, _) => *p,
+            Op::Xor(p, _) | Op::Set(p, _) | Op::Del(p, _) | Op::Ins(p, _) | Op::Splice(p, _, _) => *p,
             Op::Replace(_) => 0,
         }
     }
@@ -82,6 +90,7 @@ impl Op {
             Op::Del(p, n) => json!({"op": "del", "at": p, "n": n}),
             Op::Ins(p, x) => json!({"op": "ins", "at": p, "bytes": hex::encode(x)}),
             Op::Replace(x) => json!({"op": "replace", "with": hexs(x)}),
+            Op::Splice(p, n, x) => json!({"op": "splice", "at": p, "del": n, "bytes": hex::encode(x)}),
         }
     }
 }
@@ -248,6 +257,22 @@ fn sigval_perts(
             either(out, off + p, 2, "sigval.mpi-len");
             let w = format!("{prefix}sigval.mpi{k}");
             add_flips(out, region, req, off + p + 2, val.len(), &|_| w.clone());
+            // the same integer plus a multiple of 2^(8*len): well-formed MPI (bit count fixed up) of a
+            // different value, 1, 2 and 40 octets longer
+            for grow in [1usize, 2, 40] {
+                let mut nv = vec![0x01u8];
+                nv.extend(std::iter::repeat(0xA5u8).take(grow - 1));
+                nv.extend_from_slice(val);
+                let enc = rfc::mpi(&nv);
+                out.push(Pert { region, detail: format!("{prefix}sigval.mpi{k}.grown"), req, op: Op::Splice(off + p, np - p, enc) });
+            }
+            // the integer without its most significant octet (well-formed, different value)
+            if val.len() > 1 {
+                let enc = rfc::mpi(&val[1..]);
+                if enc.len() > 2 && val[0] != 0 {
+                    out.push(Pert { region, detail: format!("{prefix}sigval.mpi{k}.shrunk"), req, op: Op::Splice(off + p, np - p, enc) });
+                }
+            }
             p = np;
         }
         if p < data.len() {
@@ -1752,6 +1777,7 @@ fn group_of(unit: u64, p: &Pert, n: u64) -> u64 {
         Op::Xor(_, m) | Op::Set(_, m) => *m as u64,
         Op::Del(_, k) => *k as u64,
         Op::Ins(_, x) => x.len() as u64,
+        Op::Splice(_, _, x) => 1000 + x.len() as u64,
         Op::Replace(_) => 0,
     };
     crate::core::hash64(&(unit, p.region, cover_pos(&p.op), m)) % n
